@@ -76,7 +76,7 @@ PROPS = {
         ],
     },
     "C15": {
-        "lean_modules": ["DocsModel.Props.C15", "DocsModel.Props.Node", "DocsModel.Props.Live", "DocsModel.Props.C15Engine"],
+        "lean_modules": ["DocsModel.Props.C15", "DocsModel.Props.Node", "DocsModel.Props.Live", "DocsModel.Props.C15Engine", "DocsModel.Props.LiveDownloads"],
         "trusted_base": COMMON_TRUST + [
             "live-actor component (harness/src/live.rs, Model/Live.lean, Props/Live.lean, hook H9): one real live actor whose loop does not run; every handler the loop dispatches to (start_sync, leave, Subscribe, NeighborUp/Down, on_replica_event, start_download, on_download_ready, on_neighbor_content_ready, on_sync_report, accept_sync_request, sync_with_peer, the three completion handlers) is called by the harness and compared after every call with the model: dials, gossip messages handed to an active topic, requests handed to the downloader, events per subscriber, replies, and the whole book-keeping (documents, topics, both maps of the download queue, missing hashes, providers, every slot, the useful peers in the store); each property compares the fields it is about; gossip delivery, the downloader and the task futures are played by the harness",
             "whole-node component (harness/src/apinode.rs, Model/Node.lean, Props/Node.lean): one real in-memory docs node (DocsApi/Doc -> RpcActor -> Engine and live actor -> store actor -> store) driven by one sequential client; every handler of src/api/actor.rs that needs no second node, Engine::{start_sync, leave, subscribe}, the default author, and the protection callback of gc_protect_task are modelled by hand and compared on every run; the theorems of Props/Node.lean lift this property to every history of client requests (node_getMany_eq_spec, node_policy_persists, node_setPolicy, node_peers_run, node_peers_eq_mru5, node_drop_erases, node_drop_frames, node_hashes_exact, node_openInv_reachable, write_events_exact, sub_survives); not modelled there: gossip and connections (no second node), blob import/export, iroh-gossip, irpc delivery (in-process channel, requests handled in order)","redb tables are modelled as sorted lists whose range() is the in-order filter by the bounds (element-wise tuple comparison, lexicographic byte strings); redb itself is not verified",],
@@ -189,7 +189,7 @@ PROPS = {
         ],
     },
     "C11": {
-        "lean_modules": ["DocsModel.Props.C11", "DocsModel.Props.C11One", "DocsModel.Props.C11Net", "DocsModel.Props.Live", "DocsModel.Props.LiveGossip"],
+        "lean_modules": ["DocsModel.Props.C11", "DocsModel.Props.C11One", "DocsModel.Props.C11Net", "DocsModel.Props.Live", "DocsModel.Props.LiveGossip", "DocsModel.Props.C11Live"],
         "trusted_base": COMMON_TRUST + [
             "live-actor component (harness/src/live.rs, Model/Live.lean, Props/Live.lean, hook H9): one real live actor whose loop does not run; every handler the loop dispatches to (start_sync, leave, Subscribe, NeighborUp/Down, on_replica_event, start_download, on_download_ready, on_neighbor_content_ready, on_sync_report, accept_sync_request, sync_with_peer, the three completion handlers) is called by the harness and compared after every call with the model: dials, gossip messages handed to an active topic, requests handed to the downloader, events per subscriber, replies, and the whole book-keeping (documents, topics, both maps of the download queue, missing hashes, providers, every slot, the useful peers in the store); each property compares the fields it is about; gossip delivery, the downloader and the task futures are played by the harness",
             "the network and the tokio tasks are replaced by the model's scheduler: a connect/accept task is alive from its spawn until the live actor has processed its completion; requests are delivered or lost; the two ends of a session complete independently",
